@@ -7,6 +7,7 @@ import (
 	"bytes"
 	"crypto"
 	"crypto/sha256"
+	"errors"
 	"fmt"
 	"io"
 	"sync"
@@ -42,7 +43,7 @@ type Case struct {
 }
 
 var opKinds = map[string][]string{
-	"image":         {"Hash", "Bytes", "Open", "Signatures", "Verify", "Verify", "VerifyOutsider", "VerifyTwin"},
+	"image":         {"Hash", "Bytes", "Open", "Signatures", "Verify", "Verify", "VerifyOutsider", "VerifyTwin", "NeighbourFault"},
 	"database":      {"Bytes", "Marshal", "SigDataExists", "BytesExists", "Exists", "ExistsSpread", "ExistsAbsent", "ListBytes"},
 	"signed_update": {"Marshal", "Bytes"},
 	"descriptor":    {"Marshal", "Verify", "VerifyOutsider", "VerifyTwin"},
@@ -128,7 +129,7 @@ func digest(b []byte) string { d := sha256.Sum256(b); return fmt.Sprintf("%x", d
 // runner executes one operation on the shared object and returns a digest of the result.
 type runner func(op Op) string
 
-func imageRunner(bin *authenticode.PECOFFBinary, signers []int) runner {
+func imageRunner(bin *authenticode.PECOFFBinary, signers []int, img []byte) runner {
 	ids := gen.FixedIdents()
 	return func(op Op) string {
 		switch op.Kind {
@@ -149,6 +150,16 @@ func imageRunner(bin *authenticode.PECOFFBinary, signers []int) runner {
 		case "Verify":
 			ok, err := bin.Verify(ids[signers[op.Arg%len(signers)]].Cert)
 			return fmt.Sprint(ok, err)
+		case "NeighbourFault":
+			// not a call on the object at all: another object (parsed from the same bytes) whose reader starts failing
+			// after Parse is hashed and verified; that failure is the neighbour's own business
+			r := &failingAfter{data: img}
+			if nb, err := authenticode.Parse(r); err == nil {
+				r.failAt = r.calls + 2 + op.Arg%6
+				nb.Hash(crypto.SHA256)
+				nb.Verify(ids[signers[0]].Cert)
+			}
+			return "-"
 		case "VerifyTwin":
 			// same issuer and serial as a signer, another key: reaches the signature check and fails there
 			tw, terr := gen.Twin(ids[signers[op.Arg%len(signers)]], 5)
@@ -162,6 +173,32 @@ func imageRunner(bin *authenticode.PECOFFBinary, signers []int) runner {
 			return fmt.Sprint(ok, err)
 		}
 	}
+}
+
+// failingAfter is a ReaderAt over data whose failAt-th and later calls fail (0 = never).
+type failingAfter struct {
+	data   []byte
+	mu     sync.Mutex
+	calls  int
+	failAt int
+}
+
+func (f *failingAfter) ReadAt(p []byte, off int64) (int, error) {
+	f.mu.Lock()
+	f.calls++
+	fail := f.failAt > 0 && f.calls >= f.failAt
+	f.mu.Unlock()
+	if fail {
+		return 0, errors.New("verif: injected read failure of the neighbour")
+	}
+	if off >= int64(len(f.data)) {
+		return 0, io.EOF
+	}
+	n := copy(p, f.data[off:])
+	if n < len(p) {
+		return n, io.EOF
+	}
+	return n, nil
 }
 
 func dbRunner(db *signature.SignatureDatabase) runner {
@@ -254,7 +291,7 @@ func checkCase(c Case) error {
 			if err != nil {
 				return nil, nil, fmt.Errorf("bad case: %v", err)
 			}
-			return imageRunner(bin, c.Signers), func() string { return digest(bin.Bytes()) + digest(bin.Hash(crypto.SHA256)) }, nil
+			return imageRunner(bin, c.Signers, c.Img), func() string { return digest(bin.Bytes()) + digest(bin.Hash(crypto.SHA256)) }, nil
 		case "database":
 			db, err := signature.ReadSignatureDatabase(bytes.NewReader(c.DB))
 			if err != nil {
